@@ -24,22 +24,22 @@ type model interface {
 
 type Engine struct {
 	calleeNames map[string]bool
-	dotImports map[string][]*types.Package
-	repo      string
-	fset      *token.FileSet
-	prog      *ssa.Program
-	pkgs      []*packages.Package
-	pkgByName map[string]*types.Package
-	cons      *Contracts
-	models    map[string]model
-	overlay   map[string][]byte
-	fileCache map[string][]string
-	funcs     map[string]*ssa.Function
-	workdir   string
-	timeout   time.Duration
-	mu        sync.Mutex
-	loadSecs  float64
-	known     map[string]bool // obligation names recorded as known findings
+	dotImports  map[string][]*types.Package
+	repo        string
+	fset        *token.FileSet
+	prog        *ssa.Program
+	pkgs        []*packages.Package
+	pkgByName   map[string]*types.Package
+	cons        *Contracts
+	models      map[string]model
+	overlay     map[string][]byte
+	fileCache   map[string][]string
+	funcs       map[string]*ssa.Function
+	workdir     string
+	timeout     time.Duration
+	mu          sync.Mutex
+	loadSecs    float64
+	known       map[string]bool // obligation names recorded as known findings
 }
 
 func goEnv() []string {
@@ -766,6 +766,10 @@ func (e *Engine) verifyFunc(key string, sem chan struct{}) *FuncResult {
 				f := filepath.Join(e.workdir, sanitizeFile(fmt.Sprintf("%s.%d", key, i))+".smt2")
 				_ = os.WriteFile(f, []byte(query+"(check-sat)\n"), 0o644)
 				r = poolSolve(query, 2*time.Second, false)
+			} else if e.known[o.Name] {
+				// a recorded finding: one short attempt tells whether it still fails; racing the whole
+				// portfolio for the full budget on a goal known to be unprovable only burns time
+				r = poolSolve(query, 3*time.Second, false)
 			} else {
 				r = solve(e.workdir, fmt.Sprintf("%s.%d", key, i), query, e.timeout, true)
 			}
